@@ -30,6 +30,10 @@ func genC12(t *rapid.T) interface{} {
 		c.Engines = []string{EngMem, EngTiKV, EngMemMetrics}
 	}
 	c.Keys = genKeyPool(t, 2, 5)
+	if DrawBool(t, 50, "eventKey") {
+		// an Event record: created with a TTL argument on every engine (no TTL elapses here)
+		c.Keys[0] = "events/ns/e1"
+	}
 	nb := len(boundPool(c.Keys))
 	n := rapid.IntRange(5, 30).Draw(t, "nsteps")
 	for i := 0; i < n; i++ {
